@@ -378,36 +378,13 @@ class ANMLReader:
         elif name in (TK_INTEGER, TK_FLOAT):
             lower_bound, upper_bound = None, None
             if len(type_res) == 2:
-                _p: Dict[str, "up.model.Parameter"] = {}
                 interval = type_res[1]
                 lb_exp = interval[0]
                 if lb_exp != TK_INFINITY:
-                    lower_bound_exp = self._parse_expression(
-                        lb_exp, parameters=_p, types_map=types_map
-                    )
-                    if (
-                        lower_bound_exp.is_int_constant()
-                        or lower_bound_exp.is_real_constant()
-                    ):
-                        lower_bound = lower_bound_exp.constant_value()
-                    else:
-                        raise ANMLSyntaxError(
-                            f"bounds of type {type_res} must be integer or real constants"
-                        )
+                    lower_bound = self._parse_type_bound(lb_exp, type_res)
                 ub_exp = interval[1]
                 if ub_exp != TK_INFINITY:
-                    upper_bound_exp = self._parse_expression(
-                        ub_exp, parameters=_p, types_map=types_map
-                    )
-                    if (
-                        upper_bound_exp.is_int_constant()
-                        or upper_bound_exp.is_real_constant()
-                    ):
-                        upper_bound = upper_bound_exp.constant_value()
-                    else:
-                        raise ANMLSyntaxError(
-                            f"bounds of type {type_res} must be integer or real constants"
-                        )
+                    upper_bound = self._parse_type_bound(ub_exp, type_res)
             else:
                 assert len(type_res) == 1, "Parse error"
             if name == TK_INTEGER:
@@ -432,6 +409,16 @@ class ANMLReader:
                 raise ANMLSyntaxError(
                     f"UserType {name} is referenced but never defined."
                 )
+
+    def _parse_type_bound(self, bound, type_res: ParseResults) -> Union[int, Fraction]:
+        # the bound is a signed integer, decimal or fraction token; it is read exactly
+        try:
+            value = Fraction(str(bound))
+        except (ValueError, ZeroDivisionError):
+            raise ANMLSyntaxError(
+                f"bounds of type {type_res} must be integer or real constants"
+            )
+        return value.numerator if value.denominator == 1 else value
 
     def _parse_fluent(
         self, fluent_res: ParseResults, types_map: Dict[str, "up.model.Type"]
